@@ -208,25 +208,32 @@ def run_disc_case(case):
     return run_disc(case["fn"], case["data"], comp, case["mode"], case["tol"], case["scalar"])
 
 
-def gen_pairs(rng, binary=False):
+def gen_pairs(rng, binary=False, inf_ok=True):
     """(fcst, obs) as 2-D arrays over dims a, b (obs sometimes only over b: broadcast)"""
     na, nb = rng.choice([1, 2, 3]), rng.choice([1, 2, 3, 4])
     pool = [0.0, 1.0] if binary else None
     thr = rng.choice([0, 0.0, 0, -1.0, -0.5, -2, 0.5, 1.0, 1, 2.25, 0.25])
 
-    def val(pn):
+    # +inf / -inf are VALID, comparable values (inf > thr holds, -inf > thr does not): a pair containing one is
+    # classified like any other.  Half of the cases carry infinities (in the forecast, the observation or both).
+    pinf_f, pinf_o = (0.0, 0.0) if (binary or not inf_ok or rng.random() < 0.5) else \
+        rng.choice([(0.2, 0.0), (0.0, 0.2), (0.2, 0.2), (0.5, 0.5)])
+
+    def val(pn, pi):
         r = rng.random()
         if r < pn:
             return NAN
         if binary:
             return rng.choice(pool)
+        if rng.random() < pi:
+            return rng.choice([math.inf, -math.inf])
         if r < pn + 0.35:
             return float(thr) + rng.choice([0, 0, 0.25, -0.25])
         return core.dyadic(rng, -3, 3)
     pf, po = rng.choice([0.0, 0.15, 0.4]), rng.choice([0.0, 0.15, 0.4])
-    f = [[val(pf) for _ in range(nb)] for _ in range(na)]
+    f = [[val(pf, pinf_f) for _ in range(nb)] for _ in range(na)]
     obs_1d = rng.random() < 0.2
-    o = [val(po) for _ in range(nb)] if obs_1d else [[val(po) for _ in range(nb)] for _ in range(na)]
+    o = [val(po, pinf_o) for _ in range(nb)] if obs_1d else [[val(po, pinf_o) for _ in range(nb)] for _ in range(na)]
     if rng.random() < 0.3 and not obs_1d:      # forecast == observation collisions
         i, j = rng.randrange(na), rng.randrange(nb)
         o[i][j] = f[i][j]
@@ -261,13 +268,19 @@ def gen_table_case(rng):
     custom = rng.random() < 0.3
     dthr = rng.choice([0.5, -1.0, 0.0, 2]) if custom else 0.001
     dop = rng.choice(["gt", "le", "lt"]) if custom else "ge"
+    if rng.random() < 0.06 and op not in ("eq", "ne"):
+        # an infinite event threshold with an order relation is well defined ('=='/'!=' of equal infinities: N-C08-1, excluded)
+        thr = rng.choice([math.inf, -math.inf])
+        use_thr = True
+        if rng.random() < 0.5:
+            f[0][0] = thr
     return {"f": f, "o": o, "obs_1d": obs_1d, "thr": thr if use_thr else None, "op": op,
             "dthr": dthr, "dop": dop, "custom": custom}
 
 
 def run_table_case(case):
     """returns dict with events, maps, counts from the implementation, or ('err', class)"""
-    from scores.categorical import ThresholdEventOperator
+    from scores.categorical import BinaryContingencyManager, ThresholdEventOperator
     fx, ox = xr_pairs(case["f"], case["o"], case["obs_1d"])
     teo = ThresholdEventOperator(default_event_threshold=case["dthr"], default_op_fn=getattr(operator, case["dop"])) \
         if case["custom"] else ThresholdEventOperator()
@@ -280,6 +293,7 @@ def run_table_case(case):
         with np.errstate(all="ignore"):
             man = teo.make_contingency_manager(fx, ox, **kw)
             fe, oe = teo.make_event_tables(fx, ox, **kw)
+            man2 = BinaryContingencyManager(fe, oe)      # second route to the same table
             fe, oe = xr.broadcast(fe, oe)
             mfe, moe = xr.broadcast(man.fcst_events, man.obs_events)
             res = {"counts": {k: float(v) for k, v in counts_of(man).items()},
@@ -299,6 +313,8 @@ def run_table_case(case):
             res["table"] = {str(k)[:-6]: float(tab.sel(contingency=k)) for k in tab["contingency"].values}
             tr = man.transform()
             res["transform_counts"] = {k[:-6]: float(v) for k, v in tr.get_counts().items()}
+            res["tables_route_counts"] = {k: float(v) for k, v in counts_of(man2).items()}
+            res["tables_route_keep_a"] = {k: v.tolist() for k, v in counts_of(man2, preserve_dims=[fresh("a")]).items()}
         return res
     except Exception as ex:  # noqa: BLE001
         return ("err", core.exc_class(ex) + ": " + str(ex)[:120])
@@ -339,6 +355,11 @@ def table_tags(case):
          ("zero" if case["thr"] == 0 else "negative" if case["thr"] < 0 else "positive")}
     if case["thr"] is not None and case["thr"] == 0:
         t["defect"] = "F4"
+    if case["thr"] is not None and math.isinf(case["thr"]):
+        t["infinite"] = "threshold"
+    elif any(math.isinf(v) for v in sum(case["f"], [])) or \
+            any(math.isinf(v) for v in (case["o"] if case["obs_1d"] else sum(case["o"], []))):
+        t["infinite"] = "data"
     return t
 
 
@@ -369,10 +390,12 @@ def check_table_against(ctx, batch, kind, case, res, model, spec=False):
             break
     for cell in ("tp", "tn", "fp", "fn", "total"):
         exp = model[cell]
-        for where in ("counts", "table", "transform_counts", "keep_all_sum"):
+        for where in ("counts", "table", "transform_counts", "keep_all_sum", "tables_route_counts"):
             got = res[where].get(cell)
             if got is None or not core.close(got, exp if isinstance(exp, str) else core.Fraction(exp), 0, 0):
-                bad("BinaryContingencyManager." + where, "count-differs:" + cell, got, exp, "threshold_counts_eq_direct")
+                site = "make_event_tables+BinaryContingencyManager.counts" if where == "tables_route_counts" \
+                    else "BinaryContingencyManager." + where
+                bad(site, "count-differs:" + cell, got, exp, "threshold_counts_eq_direct")
                 break
     return ok
 
@@ -405,6 +428,17 @@ def check_table_relations(ctx, batch, case, res):
                      observed={"index": i, "cells": cells}, expected="exactly one 1 (or all NaN on an invalid pair)",
                      tags=tags, theorem="maps_partition")
             break
+    # counts kept along dimension a = direct count of each row (both routes to the table)
+    for keep in ("keep_a", "tables_route_keep_a"):
+        for i, row in enumerate(case["f"]):
+            sub = dict(case)
+            sub.update({"f": [row], "o": case["o"] if case["obs_1d"] else [case["o"][i]]})
+            pr = py_count(sub)
+            got = {k: res[keep][k][i] for k in pr}
+            if any(got[k] != pr[k] for k in pr):
+                ctx.fail(batch, "property", "BinaryContingencyManager.transform", "kept-direct-count:" + keep, desc,
+                         observed={"index": i, "counts": got}, expected=pr, tags=tags, theorem="threshold_counts_eq_direct")
+                break
     # counts kept along a dimension sum to the fully reduced counts
     for keep in ("keep_a", "keep_b"):
         for cell in ("tp", "tn", "fp", "fn", "total"):
